@@ -116,6 +116,17 @@ Section WithMv.
 
   (* ---------- the memo pattern converges ---------- *)
 
+  Lemma sim_fill F s l :
+    memo l = Some (VNum (mv l)) -> csim F s s -> csim F s (cupd s l (VNum (mv l))).
+  Proof.
+    intros M S x Hx. destruct (memo x) as [mx|] eqn:Mx.
+    - pose proof (S x Hx) as Sx. rewrite Mx in Sx. split; [apply Sx|].
+      destruct (cloc_eqb x l) eqn:Q.
+      + apply cloc_eqb_spec in Q. subst x. rewrite cupd_same. rewrite M in Mx. inversion Mx. right. reflexivity.
+      + rewrite cupd_other; [apply Sx|]. intro; subst. rewrite cloc_eqb_refl in Q. discriminate.
+    - rewrite cupd_other; [reflexivity|]. intro; subst. congruence.
+  Qed.
+
   Lemma call_memo_conv cd : memo_conv cloc cval cstate cloc_eqb VNone memo next (fp_of_code cd) (cinv cd).
   Proof.
     intros st l k mvv I N M s S.
@@ -130,13 +141,15 @@ Section WithMv.
       destruct (memo_of_some _ _ M) as [-> Hm].
       exists 2%nat. cbn [is_none num_of].
       unfold Interleave.solo, Interleave.step1. cbn [cnext code sub fst snd args req body refs memos].
-      split; [reflexivity|].
-      intros x Hx. destruct (memo x) as [mx|] eqn:Mx.
-      + pose proof (S x Hx) as Sx. rewrite Mx in Sx. split; [apply Sx|].
-        destruct (cloc_eqb x l0) eqn:Q.
-        * apply cloc_eqb_spec in Q. subst x. rewrite cupd_same. rewrite M in Mx. inversion Mx. right. reflexivity.
-        * rewrite cupd_other; [apply Sx|]. intro; subst. rewrite cloc_eqb_refl in Q. discriminate.
-      + rewrite cupd_other; [reflexivity|]. intro; subst. congruence.
+      split; [reflexivity|]. apply sim_fill; assumption.
+    - (* IProxy: the read that follows the assignment *)
+      destruct (sub st) as [|n] eqn:Es; try discriminate.
+      inversion N; subst l k. clear N.
+      destruct (memo_of_some _ _ M) as [-> Hm].
+      exists 2%nat. cbn [is_none num_of].
+      unfold Interleave.solo, Interleave.step1. cbn [cnext code sub fst snd args req body refs memos].
+      rewrite cupd_same. cbn [is_none fst snd].
+      split; [reflexivity|]. apply sim_fill; assumption.
     - inversion N; subst. cbn in M. discriminate.
     - inversion N; subst. cbn in M. discriminate.
   Qed.
@@ -217,33 +230,40 @@ Section WithMv.
 
   Lemma rlocs_call k l :
     In l (flat_map instr_rlocs (call_code k)) ->
-    l = LOpt (c_client k) \/ In l (c_in k ++ c_out k) \/ mr_cell (c_mr k) l.
-  Proof.
-    unfold call_code. rewrite !flat_map_app. rewrite !in_app_iff. cbn.
-    intros [H|[H|[H|[H|H]]]].
-    - left. intuition congruence.
-    - right. left. left. apply flat_rlocs_memo. exact H.
-    - intuition congruence.
-    - right. right. eapply rlocs_mr. exact H.
-    - right. left. right. apply flat_rlocs_memo. exact H.
-  Qed.
-
-  Lemma wlocs_call k l :
-    In l (flat_map instr_wlocs (call_code k)) ->
-    l = LMsgTx (c_client k) \/ l = LMsgRx (c_client k) \/ In l (c_in k ++ c_out k)
+    l = LOpt (c_client k) \/ l = LProxy (c_client k) \/ In l (c_in k ++ c_out k)
     \/ mr_cell (c_mr k) l.
   Proof.
     unfold call_code. rewrite !flat_map_app. rewrite !in_app_iff. cbn.
     intros [H|[H|[H|[H|H]]]].
-    - intuition congruence.
-    - right. right. left. left. apply flat_wlocs_memo. exact H.
-    - destruct H as [H|[H|H]]; [left|right; left|]; intuition congruence.
-    - right. right. right. eapply wlocs_mr. exact H.
-    - right. right. left. right. apply flat_wlocs_memo. exact H.
+    - left. intuition congruence.
+    - right. right. left. left. apply flat_rlocs_memo. exact H.
+    - right. left. intuition congruence.
+    - right. right. right. eapply rlocs_mr. exact H.
+    - right. right. left. right. apply flat_rlocs_memo. exact H.
   Qed.
 
-  Lemma call_wf_memo k l : call_wf k = true -> In l (c_in k ++ c_out k) -> is_memo_loc l = true.
+  Lemma wlocs_call k l :
+    In l (flat_map instr_wlocs (call_code k)) ->
+    l = LMsgTx (c_client k) \/ l = LMsgRx (c_client k) \/ l = LProxy (c_client k)
+    \/ In l (c_in k ++ c_out k) \/ mr_cell (c_mr k) l.
+  Proof.
+    unfold call_code. rewrite !flat_map_app. rewrite !in_app_iff. cbn.
+    intros [H|[H|[H|[H|H]]]].
+    - intuition congruence.
+    - right. right. right. left. left. apply flat_wlocs_memo. exact H.
+    - destruct H as [H|[H|[H|H]]]; [left|right; right; left|right; left|]; intuition congruence.
+    - right. right. right. right. eapply wlocs_mr. exact H.
+    - right. right. right. left. right. apply flat_wlocs_memo. exact H.
+  Qed.
+
+  Lemma call_wf_cache k l : call_wf k = true -> In l (c_in k ++ c_out k) -> is_cache_loc l = true.
   Proof. unfold call_wf. rewrite forallb_forall. intros H Hl. apply H. exact Hl. Qed.
+
+  Lemma cache_is_memo l : is_cache_loc l = true -> is_memo_loc l = true.
+  Proof. destruct l; cbn; congruence. Qed.
+
+  Lemma call_wf_memo k l : call_wf k = true -> In l (c_in k ++ c_out k) -> is_memo_loc l = true.
+  Proof. intros H Hl. apply cache_is_memo. eapply call_wf_cache; eassumption. Qed.
 
   (* the model's write footprint is inside what the harness accepts as
      "declared" for a call through that client with a per-call MultiRef *)
@@ -252,10 +272,11 @@ Section WithMv.
     fW (fp_of_code (call_code k)) l = true -> declared_W (c_client k) l = true.
   Proof.
     intros Wf Fr H. cbn in H. apply existsb_cloc in H. apply wlocs_call in H.
-    destruct H as [->|[->|[H|[->| ->]]]]; cbn.
+    destruct H as [->|[->|[->|[H|[->| ->]]]]]; cbn.
     - apply N.eqb_refl.
     - apply N.eqb_refl.
-    - pose proof (call_wf_memo k l Wf H) as M. destruct l; cbn in M; try discriminate; reflexivity.
+    - apply N.eqb_refl.
+    - pose proof (call_wf_cache k l Wf H) as M. destruct l; cbn in M; try discriminate; reflexivity.
     - apply N.leb_le. exact Fr.
     - apply N.leb_le. exact Fr.
   Qed.
@@ -267,21 +288,26 @@ Section WithMv.
     compatible cloc cval memo (fp_of_code (thread_code ti)) (fp_of_code (thread_code tj)).
   Proof.
     intros Wi Wj Ok l HW HR. cbn in HW, HR. apply existsb_cloc in HW. apply existsb_cloc in HR.
+    destruct (is_memo_loc l) eqn:Ml.
+    { rewrite (memo_of_memo_loc l Ml). discriminate. }
+    exfalso.
     destruct ti as [ki|ci vi].
     2:{ cbn in HR. intuition congruence. }
     apply rlocs_call in HR.
-    assert (Memo : In l (c_in ki ++ c_out ki) -> memo l <> None).
-    { intro H. rewrite (memo_of_memo_loc l (call_wf_memo ki l Wi H)). discriminate. }
+    assert (RR : l = LOpt (c_client ki) \/ mr_cell (c_mr ki) l).
+    { destruct HR as [HR|[HR|[HR|HR]]]; [left; exact HR| | |right; exact HR].
+      - subst l. discriminate.
+      - rewrite (call_wf_memo ki l Wi HR) in Ml. discriminate. }
     destruct tj as [kj|cj vj].
     - apply wlocs_call in HW. cbn in Ok.
-      assert (Memo' : In l (c_in kj ++ c_out kj) -> memo l <> None).
-      { intro H. rewrite (memo_of_memo_loc l (call_wf_memo kj l Wj H)). discriminate. }
-      destruct HR as [->|[HR|[->| ->]]]; try (apply Memo; assumption);
-        destruct HW as [HW|[HW|[HW|[HW|HW]]]]; try discriminate; try (apply Memo'; assumption);
-        inversion HW; subst; exfalso; apply Ok; congruence.
+      destruct HW as [HW|[HW|[HW|[HW|HW]]]].
+      + subst l. destruct RR as [R|[R|R]]; discriminate.
+      + subst l. destruct RR as [R|[R|R]]; discriminate.
+      + subst l. discriminate.
+      + rewrite (call_wf_memo kj l Wj HW) in Ml. discriminate.
+      + destruct HW as [HW|HW]; subst l; destruct RR as [R|[R|R]]; try discriminate;
+          inversion R; apply Ok; congruence.
     - cbn in HW. destruct HW as [HW|[]]. subst l. cbn in Ok.
-      destruct HR as [HR|[HR|[HR|HR]]]; try discriminate.
-      + inversion HR. congruence.
-      + apply Memo. exact HR.
+      destruct RR as [R|[R|R]]; try discriminate. inversion R. congruence.
   Qed.
 End WithMv.
